@@ -2,7 +2,7 @@
    Only statements here; proofs live in Proofs/Pipeline.v and Proofs/PipelineSpec.v.  Gen_C01 is
    regenerated from pyxel/pipelines/{pipeline,processor,model_group,model_function}.py on every run. *)
 From Coq Require Import List String ZArith Bool Arith Sorted Permutation.
-From PyxelV Require Import Model.Pipeline Proofs.Pipeline Proofs.PipelineSpec.
+From PyxelV Require Import Model.Pipeline Proofs.Pipeline Proofs.PipelineSpec Proofs.PipelineEq Proofs.PipelineJudge.
 From PyxelGen Require Import Gen_C01.
 Import ListNotations.
 Open Scope list_scope.
@@ -59,6 +59,21 @@ Proof.
   - apply spec_run_is_trace.
 Qed.
 Print Assumptions C01_model_is_trace.
+
+(* what a "no violation" verdict of the correspondence leg means: the recorded calls are literally
+   the observable projection (step, name, arguments) of the trace of the theorems below, for an
+   exposure and for every run of a sequential observation (the boolean comparisons decide equality) *)
+Theorem C01_judgement_sound :
+  (forall c p debug t nodes,
+     from_yaml (k_doc c) = Ok p -> k_mode c = Exposure debug -> k_observed c = Ran t nodes ->
+     agrees false spec_run c = true ->
+     t = map obs_of (trace debug p (k_steps c))) /\
+  (forall c p runs t nodes,
+     from_yaml (k_doc c) = Ok p -> k_mode c = Observation runs -> k_observed c = Ran t nodes ->
+     agrees false spec_run c = true ->
+     t = flat_map (fun os => map obs_of (trace false (apply_overrides p os) (k_steps c))) runs).
+Proof. split; [exact judgement_sound_exposure|exact judgement_sound_observation]. Qed.
+Print Assumptions C01_judgement_sound.
 
 (* ---------- the property, for ALL pipelines, step counts and debug flags ---------- *)
 
